@@ -246,14 +246,19 @@ func runC04(w *World, r *Report) {
 	gossipVerifyBeforeAdmit(w, r, "verify-before-admit")
 	for _, name := range []string{"CreateLeaf", "CreateGenesis"} {
 		if f := w.fx(r, "accountant", "AccountingBook", name); f != nil {
-			for _, s := range f.calls(nAddVertexByID) {
+			for _, d := range deepCalls(f.fn, byName(nAddVertexByID), deepDepth) {
+				s := d.c
 				_, a := callArgs(s)
-				_, nv := newVertexSource(f.fn, pathOf(a[1]))
+				_, nv := newVertexSource(f.fn, d.path(a[1]))
 				signerOK := false
 				if nv != nil {
 					signerOK = strings.HasSuffix(pathOf(nv.Call.Args[4]), ".signer")
 				}
-				r.check(nv != nil && signerOK && behind(s, passErrNil(nv)), "verify-before-admit", name+"/AddVertexByID", lineOf(w, s), "a locally created vertex is the result of NewVertex(…, ab.signer) in this function", "inserted vertex has another origin")
+				top := ssa.Instruction(s.(ssa.Instruction))
+				if len(d.chain) > 0 { // the insertion sits in a helper: the helper call is what must follow NewVertex's success
+					top = d.chain[0].(ssa.Instruction)
+				}
+				r.check(nv != nil && signerOK && behind(top, passErrNil(nv)), "verify-before-admit", name+"/AddVertexByID", lineOf(w, s), "a locally created vertex is the result of NewVertex(…, ab.signer) in this function", "inserted vertex has another origin")
 			}
 		}
 	}
